@@ -54,16 +54,20 @@ def run(ctx):
                           "fmt": [ctx.rng.choice(["C", "U"]), ctx.rng.choice(["C", "U"])]})
         else:
             cases.append({"kind": "nary", "op": ctx.rng.choice(["intersection", "union", "lf"]), "ops": ops, "emb": ctx.rng.choice(["fiber", "tensor1", "tensor2"]), "fmt": ["C"] * k})
+    # the same co-iterations over ranks whose leaf default is 2 (a stored 2 counts as absent, a stored 0 is content)
+    for c in list(cases):
+        if c["emb"] in ("fiber", "tensor1") and ctx.rng.random() < (0.2 if ctx.quick else 0.5):
+            cases.append(dict(c, dflt=2))
     cases += prefix_cases(ctx, 300 if ctx.quick else 4000)
     part = family.run_family(ctx, "C04", cases, "harness.exec_coiter", "CoiterTrace.tla", "CoiterTrace.cfg",
-                             op_of=lambda c, lg, st: c["op"], where_of=lambda c, lg, st: f"{c['kind']}:{c['emb']}:{''.join(c.get('fmt') or [])}",
+                             op_of=lambda c, lg, st: c["op"], where_of=lambda c, lg, st: f"{c['kind']}:{c['emb']}:{''.join(c.get('fmt') or [])}" + (":dflt2" if c.get("dflt") else ""),
                              nontrivial=lambda c, lg: any(t["e"] for t in c["ops"]))
     res = {"design": design, "states": r["stats"]["distinct"], "transitions": r["stats"]["generated"], "exhaustive": False,
            "rule": "a case is one co-iteration (operator, operands, embedding, rank formats) executed on the implementation; pairs are emitted by TLC "
                    "from MC_Coiter (every operator x every pair of the scope) and embedded as raw fibers, depth-1 tensors, depth-2 tensors (fiber payloads) "
                    "and ranks declared uncompressed; k-tuples exhaustive over 2 coordinates (sampled) plus seeded random 6-coordinate cases and tuple-prefix cases; "
                    "non-trivial = some operand has an element",
-           "assumptions": ["ordered, unique fibers", "integer coordinates except in the prefix-match cases", "leaf default 0"],
+           "assumptions": ["ordered, unique fibers", "integer coordinates except in the prefix-match cases", "leaf defaults 0 and 2"],
            "scope": {"pairs": len(pairs), "embeddings": [e[0] + ":" + "".join(e[1]) for e in embs]}}
     return family.merge(res, part)
 
